@@ -1,5 +1,6 @@
 import HdVerif.Model.SRItems
 import HdVerif.Generated.T13v
+import HdVerif.Generated.T14v
 /-! C13: three hand-written accessors/constructors of `Model/SRItems.lean` use exactly the expressions the
 current source contains (regenerated as `Generated/T13v.lean` on every run):
 
@@ -103,5 +104,19 @@ theorem scoordValue_width (it : Item) :
 
 theorem scoord3dValue_width (it : Item) :
     scoord3dValue it = (graphicData it).map (fun l => chunk Gen.scoord3dReshapeWidth l.length l) := rfl
+
+/-! ## nested content: the attribute setter -/
+
+/-- `item.ContentSequence = children` as the current `ContentItem.__setattr__` reads (T14v): a sequence is BUILT from the
+children with the regenerated flags — the children are checked by the constructor's tree and the item gets content of its
+own (a value of the model: nothing the caller still holds is inside the item) -/
+def setContentGen (it : Item) (children : List Item) : Except ErrKind Item :=
+  if Gen.csAttachRebuilds then
+    match ctorAll Gen.csAttachFlags.1 Gen.csAttachFlags.2 children with
+    | .error e => .error e
+    | .ok _ => .ok (.mk it.cls it.attrs (some children))
+  else .error .other
+
+theorem setContent_eq_gen (it : Item) (children : List Item) : setContent it children = setContentGen it children := rfl
 
 end HdVerif.SRItemsTie
